@@ -620,6 +620,46 @@ func sized(kind int, n int, r *common.Rand) []byte {
 	return mkPacket(kind, 0, common.NewRand(seed))
 }
 
+// reform rewrites the OUTER type and length of a packet in a form that is not the shortest one (legal: every
+// reader of the repository accepts it; a peer may send it): T in 1 or 3 bytes, L in 3, 5 or 9 bytes. The value is
+// untouched. Returns the packet unchanged when the result would exceed the maximum packet size.
+func reform(pkt []byte, r *common.Rand) []byte {
+	if len(pkt) < 2 || pkt[0] > 0xfc {
+		return pkt
+	}
+	hl := 2 // 1-byte T + 1-byte L
+	switch pkt[1] {
+	case 0xfd:
+		hl = 4
+	case 0xfe:
+		hl = 6
+	case 0xff:
+		hl = 10
+	}
+	if hl > len(pkt) {
+		return pkt
+	}
+	val := pkt[hl:]
+	tform := func(x uint64, form int) []byte {
+		switch form {
+		case 1:
+			return []byte{byte(x)}
+		case 3:
+			return []byte{0xfd, byte(x >> 8), byte(x)}
+		case 5:
+			return []byte{0xfe, byte(x >> 24), byte(x >> 16), byte(x >> 8), byte(x)}
+		}
+		return []byte{0xff, byte(x >> 56), byte(x >> 48), byte(x >> 40), byte(x >> 32), byte(x >> 24), byte(x >> 16), byte(x >> 8), byte(x)}
+	}
+	tf := common.Pick(r, []int{1, 1, 3})
+	lf := common.Pick(r, []int{3, 5, 9})
+	out := append(append(tform(uint64(pkt[0]), tf), tform(uint64(len(val)), lf)...), val...)
+	if len(out) > defn.MaxNDNPacketSize {
+		return pkt
+	}
+	return out
+}
+
 // ---------------------------------------------------------------- generator
 
 var mtuBoundary = []int{128, 129, 130, 252, 253, 255, 256, 257, 258, 259, 260, 261, 300, 1280, 1452, 1500, 4000, 8799, 8800, 9000}
@@ -822,6 +862,10 @@ func gen(g *common.Gen) {
 			}
 			kind := 5 + r.Intn(2)
 			pkt := sized(kind, size, r)
+			if r.Chance(1, 8) {
+				pkt = reform(pkt, r)
+				g.Stat("packet-outer-header-not-shortest")
+			}
 			id := "m" + strconv.Itoa(m)
 			hn, hp := hashFacts(pkt, nth)
 			g.Op("tx %s %s %s %d %s %s %d %d %s", id, common.Hex(pkt), tok, r.Intn(2), mark, inface, cong, hn, hp)
